@@ -438,3 +438,28 @@ mut("C16", "r5-get-via-getmax", "container/container.go",
     "\tbuf := c.Peek(n)\n\tif len(buf) < n {\n\t\treturn nil, errors.New(\"container: not enough data to return\")\n\t}\n\tc.skip(len(buf))\n\treturn buf, nil", "\tbuf := c.GetMax(n)\n\tif len(buf) < n {\n\t\treturn nil, errors.New(\"container: not enough data to return\")\n\t}\n\treturn buf, nil", "C16-R5|Get")
 mut("C16", "r6-skip-no-clear", "container/container.go",
     "\t\t\tc.offset = i + 1\n\t\t\tc.compartments[i] = nil\n\t\t\tif n == 0 {", "\t\t\tc.offset = i + 1\n\t\t\tif n == 0 {", "C16-R6|skip")
+
+# ---- C09 -------------------------------------------------------------------
+mut("C09", "r1-load-no-msgpack", "formats/dsd/dsd.go",
+    "\tcase MsgPack:\n\t\terr = msgpack.Unmarshal(data, t)\n\t\tif err != nil {\n\t\t\treturn fmt.Errorf(\"dsd: failed to unpack msgpack: %w, data: %s\", err, utils.SafeFirst16Bytes(data))\n\t\t}\n\t\treturn nil\n", "", "C09-R1|serialization format tables", canary=True,
+    extra=[{"file": "formats/dsd/dsd.go", "old": "\tcase MsgPack:\n\t\tdata, err = msgpack.Marshal(t)", "new": "\tcase MsgPack:\n\t\t_ = msgpack.Unmarshal\n\t\tdata, err = msgpack.Marshal(t)"}])
+mut("C09", "r1-yaml-maps-to-json", "formats/dsd/http.go",
+    "\t\t\"yaml\":    YAML,", "\t\t\"yaml\":    JSON,", "C09-R1|mime tables")
+mut("C09", "r2-dump-raw-identifier", "formats/dsd/dsd.go",
+    "\tformat, ok := ValidateSerializationFormat(format)\n\tif !ok {\n\t\treturn nil, ErrIncompatibleFormat\n\t}\n\n\tdata, err := dumpWithoutIdentifier(t, format, indent)", "\tdata, err := dumpWithoutIdentifier(t, format, indent)", "C09-R2|DumpIndent / identifier written", comment="reverts fix f74683a")
+mut("C09", "r2-compress-raw-identifier", "formats/dsd/compression.go",
+    "\tcompression, ok := ValidateCompressionFormat(compression)\n\tif !ok {\n\t\treturn nil, ErrIncompatibleFormat\n\t}\n\n\t// Dump the given data", "\tvalidated, ok := ValidateCompressionFormat(compression)\n\tif !ok {\n\t\treturn nil, ErrIncompatibleFormat\n\t}\n\n\t// Dump the given data", "C09-R2|DumpAndCompress",
+    extra=[{"file": "formats/dsd/compression.go", "old": "\tswitch compression {\n\tcase GZIP:\n\t\t// create gzip writer", "new": "\tswitch validated {\n\tcase GZIP:\n\t\t// create gzip writer"}])
+mut("C09", "r3-mimedump-empty", "formats/dsd/http.go",
+    "\tmimeType, ok := FormatToMimeType[format]\n\tif !ok {\n\t\treturn nil, \"\", 0, ErrIncompatibleFormat\n\t}\n", "", "C09-R3|MimeDump", comment="reverts fix f2d2363")
+mut("C09", "r3-response-ct-if-absent", "formats/dsd/http.go",
+    "\tw.Header().Set(\"Content-Type\", mimeType)\n\t_, err = w.Write(data)", "\tif w.Header().Get(\"Content-Type\") == \"\" {\n\t\tw.Header().Set(\"Content-Type\", mimeType)\n\t}\n\t_, err = w.Write(data)", "C09-R3|Content-Type set before the body")
+mut("C09", "r3-request-dumps-default", "formats/dsd/http.go",
+    "\tdata, err := dumpWithoutIdentifier(t, format, \"\")\n\tif err != nil {\n\t\treturn fmt.Errorf(\"dsd: failed to serialize: %w\", err)\n\t}\n\n\t// Add data to request.", "\tdata, err := dumpWithoutIdentifier(t, DefaultSerializationFormat, \"\")\n\tif err != nil {\n\t\treturn fmt.Errorf(\"dsd: failed to serialize: %w\", err)\n\t}\n\n\t// Add data to request.", "C09-R3|DumpToHTTPRequest")
+mut("C09", "r4-loadformat-no-payload-check", "formats/dsd/dsd.go",
+    "\tif len(data) <= read {\n\t\treturn 0, 0, io.ErrUnexpectedEOF\n\t}\n", "\t_ = io.ErrUnexpectedEOF\n", "C09-R4|loadFormat")
+mut("C09", "r4-load-fixed-offset", "formats/dsd/dsd.go",
+    "\t\treturn format, LoadAsFormat(data[read:], format, t)\n\t}\n\treturn DecompressAndLoad(data[read:], format, t)", "\t\treturn format, LoadAsFormat(data[1:], format, t)\n\t}\n\treturn DecompressAndLoad(data[read:], format, t)", "C09-R4|offset provenance")
+mut("C09", "r5-pooled-buffer", "formats/dsd/compression.go",
+    "\tbuf := bytes.NewBuffer(nil)\n\tbuf.Write(packetFormat)", "\tbuf, _ := bufPool.Get().(*bytes.Buffer)\n\tbuf.Reset()\n\tdefer bufPool.Put(buf)\n\tbuf.Write(packetFormat)", "C09-R5|DumpAndCompress",
+    extra=[{"file": "formats/dsd/compression.go", "old": "// DumpAndCompress stores the interface", "new": "var bufPool = sync.Pool{New: func() interface{} { return new(bytes.Buffer) }}\n\n// DumpAndCompress stores the interface"}, {"file": "formats/dsd/compression.go", "old": "\t\"errors\"\n", "new": "\t\"errors\"\n\t\"sync\"\n"}])
